@@ -83,7 +83,7 @@ func init() {
 				if strings.HasPrefix(r.err.Error(), "panic") {
 					return r.err.Error()
 				}
-				return "err"
+				return "reject"
 			}
 			return verdictStr(r.ok)
 		case <-time.After(8 * time.Second):
